@@ -1123,3 +1123,51 @@ pub fn tiny_pair_program(rng: &mut Rng) -> Program {
     }
     Program { points: vec![0, TA, TB, MAXC], ops }
 }
+
+// ------------------------------------------------------------------ simple patterns (concatenations of ranges and loops over ranges)
+
+pub const SIMPLE_ITEMS: usize = 12;
+
+/// item k of the simple-pattern vocabulary as ops appended to `ops`; returns the index of the item's result
+fn simple_item(ops: &mut Vec<Op>, k: usize) -> usize {
+    let (a, b) = (0x61u32, 0x62u32);
+    let atom = |ops: &mut Vec<Op>, which: usize| -> usize {
+        ops.push(match which {
+            0 => Op::Char(a),
+            1 => Op::Char(b),
+            _ => Op::Range(a, b),
+        });
+        ops.len() - 1
+    };
+    match k {
+        0..=2 => atom(ops, k),
+        3..=5 => {
+            let x = atom(ops, k - 3);
+            ops.push(Op::Star(x));
+            ops.len() - 1
+        }
+        6..=8 => {
+            let x = atom(ops, k - 6);
+            ops.push(Op::Opt(x));
+            ops.len() - 1
+        }
+        9 | 10 => {
+            let x = atom(ops, if k == 9 { 0 } else { 2 });
+            ops.push(Op::Plus(x));
+            ops.len() - 1
+        }
+        _ => {
+            let x = atom(ops, 1);
+            ops.push(Op::SmtLoop(x, 1, 2));
+            ops.len() - 1
+        }
+    }
+}
+
+/// the concatenation of the given vocabulary items, as a program whose last op is the pattern
+pub fn simple_pattern_program(items: &[usize]) -> Program {
+    let mut ops = Vec::new();
+    let idx: Vec<usize> = items.iter().map(|&k| simple_item(&mut ops, k % SIMPLE_ITEMS)).collect();
+    ops.push(Op::ConcatList(idx));
+    Program { points: vec![0x61, 0x62], ops }
+}
